@@ -78,6 +78,15 @@ CHECKS.update({
    design_ref="DESIGN.md §3 C18"),
 })
 
+CHECKS.update({
+ "C20": dict(
+   category="exploration",
+   text="A capturing log::Log at Trace records every record the library emits while the scenario sets of C01 (auth table, multiplexed histories, SNI matrix), C10 (method x authority x connect-outcome matrix, real forwarder cases), C18 (ping/speedtest/reverse proxy) and a dedicated error-path sweep (malformed heads, other schemes, non-UTF-8 values, refused/failed/timed-out connects) run with Authorization and Cookie canaries added to every request and every Proxy-Authorization value, SNI credential label and configured password registered as planted. Each of ~62k records is searched for every planted value, its marker and the base64-decoded user/password halves; leaks are keyed by (log target, call-site text).",
+   note="Trusted: the capturing logger sees what a real logger would (same log facade); records of the harness's own client stacks are excluded. TLS-level SNI label logging is covered when the C05/C12 loopback scenarios run under this check (listed in evidence).",
+   technique="runtime monitoring: canary planting + full-log scan at trace level riding on the other properties' workloads",
+   design_ref="DESIGN.md §3 C20"),
+})
+
 NOT_YET = "check not built yet in this session (designed in DESIGN.md §3; harness work in progress)"
 
 def main():
